@@ -21,7 +21,7 @@ ASSUMPTIONS = [
     "skipped empty labels, high*65536+low, sum with None counted 0, round(v*i), documented thresholds of grid_in_out) are the oracle's",
     "a rounding tie within 1e-6 accepts either neighbour",
 ]
-MUST = ["label_pairs_checked", "bitmap4_checked", "bitmap22_checked", "nonempty_bitmap_labels", "sum_checked", "product_checked",
+MUST = ["bitmap4_whole_table_checked", "label_pairs_checked", "bitmap4_checked", "bitmap22_checked", "nonempty_bitmap_labels", "sum_checked", "product_checked",
         "grid_in_out_checked", "house_consumption_checked", "es_signed_powers_checked"]
 EXHAUSTIVE = {"quick": False, "thorough": True}
 
@@ -160,9 +160,22 @@ def check_formulas(spec, part):
                 if fam == "ET" and rnd.random() < 0.5:
                     p = blocks.pos_of(block, 35140)
                     pl[p:p + 2] = rnd.choice((-92, -91, -90, -89, 0, 89, 90, 91, 32767, -32768)).to_bytes(2, "big", signed=True)
+                bm = [sn for sn in block["sensors"] if type(sn).__name__ == "EnumBitmap4"]
+                if bm and rnd.random() < 0.5:
+                    word = rnd.choice((1, 2, 0x2001, 0x80000000, rnd.randrange(1, 2 ** 32), 1 << rnd.randrange(32))).to_bytes(4, "big")
+                    for sn in bm:       # the same non-zero word in sensors that use DIFFERENT label tables
+                        p4 = blocks.pos_of(block, sn)
+                        pl[p4:p4 + 4] = word
                 d = MR(blocks.fast_response(g, block, bytes(pl)), block["sensors"])
                 part.evaluations += 1
                 case = {"formula": True, "family": fam, "port": port, "payload": bytes(pl).hex()}
+                for sn in bm:
+                    code = rs.s(pl[blocks.pos_of(block, sn):blocks.pos_of(block, sn) + 4])
+                    want_lab = rs.bitmap_labels(0 if code == -1 else code & 0xFFFFFFFF, sn._labels)
+                    part.count("bitmap4_whole_table_checked")
+                    if d[sn.id_] != want_lab:
+                        part.violate(f"C13/{fam}/bitmap4/{sn.id_}", f"{fam} whole-table decode: {sn.id_}={d[sn.id_]!r} but its code word "
+                                     f"0x{code & 0xFFFFFFFF:08x} has the set bits {want_lab!r}", case)
 
                 def bad(rel, msg):
                     part.violate(f"C13/{fam}/formula/{rel}", f"{fam}: {msg}", case)
